@@ -351,7 +351,7 @@ def run_harness(h, scratch, slot, logdir):
     if not os.path.isdir(tdir) and os.path.isdir(base):
         subprocess.call(["cp", "-a", base, tdir])
     logpath = os.path.join(logdir, h["id"] + ".log")
-    default_scale = "3" if os.environ.get("VERIF_TIER_EFFECTIVE", "quick") == "quick" else "1"
+    default_scale = "3" if os.environ.get("VERIF_TIER_EFFECTIVE", "quick") == "quick" else "2"
     cap = int(float(h["cap"]) * float(os.environ.get("VERIF_CAP_SCALE", default_scale)))
     # first run without trace generation (concrete playback costs ~10x on harnesses with covers)
     rc, to, wall = run_capped(kani_cmd(h, scratch, tdir, playback=False), scratch.repo, cap, logpath)
